@@ -35,8 +35,9 @@ ASSUMPTIONS = ["schemas are plain XML both f8c's reader and Python's ElementTree
                "float-typed enumerations are outside the specification",
                "the `present` trait bit is run-time state and is masked in dumps",
                "probes avoid values other properties already know to be mishandled (negative int text)"]
-RULE = ("schemas: stock FIX42UTEST (+ FIX44, FIX43, FIX42, FIX41, FIX40 in thorough); a structured schema with every supported "
-        "field type, enumerations of every family, groups nested to depth 4, a group reused by several messages, plain / nested / "
+RULE = ("schemas: stock FIX42UTEST and FIX44 (+ FIX43, FIX42, FIX41, FIX40 in thorough); a structured schema with every supported "
+        "field type, enumerations of every family, groups nested to depth 4, a group reused by several messages, count fields with a once-used and a reused "
+        "definition in both hash orders, plain / nested / "
         "group-holding components; a schema with a required component nested in an optional one; a schema using PATTERN/TENOR; "
         "random schemas from the rng.  Per schema one tables case and one case per message table entry (trait tree + probes: "
         "full, minimal, every group once, random subsets, mandatory field removed). non-trivial = tables case, or message case "
@@ -74,7 +75,9 @@ def gen_special(rng):
 
 
 def schemas(rng, tier):
-    out = [("repo:schema/FIX42UTEST.xml", L.read_xml(os.path.join(B.REPO, "schema/FIX42UTEST.xml")), "stock")]
+    out = [("repo:schema/FIX42UTEST.xml", L.read_xml(os.path.join(B.REPO, "schema/FIX42UTEST.xml")), "stock"),
+           # FIX44: a count field (e.g. NoPartyIDs, NoLegs) has once-used and reused definitions there
+           ("repo:schema/FIX44.xml", L.read_xml(os.path.join(B.REPO, "schema/FIX44.xml")), "stock")]
     out.append(("gen", L.gen_alltypes(rng), "alltypes"))
     out += gen_special(rng)
     for _ in range(12 if tier == "thorough" else 1):
@@ -84,7 +87,7 @@ def schemas(rng, tier):
             out.append(("gen", L.gen_alltypes(rng), "alltypes"))
         for _ in range(3):
             out.append(("gen", L.gen_random(rng, 2.5), "random-large"))
-        for rel in ("schema/FIX44.xml", "schema/FIX43.xml", "schema/FIX42.xml", "schema/FIX41.xml", "schema/FIX40.xml"):
+        for rel in ("schema/FIX43.xml", "schema/FIX42.xml", "schema/FIX41.xml", "schema/FIX40.xml"):
             out.append(("repo:" + rel, L.read_xml(os.path.join(B.REPO, rel)), "stock"))
     return out
 
@@ -128,7 +131,7 @@ def c_tz(case, r, m):
 
 
 def c_noclass(case, r, m):
-    return r == "COMPILE-FAIL" and L.query(ID, "noclass", case.line)
+    return r == "COMPILE-FAIL" and L.query(ID, "noclass", case.line)   # exactly the token of the listed kind
 
 
 CLASSIFIERS = {"hash-clash": c_clash, "nested-required-component": c_quirk, "tz-class": c_tz,
